@@ -99,8 +99,45 @@ def cmd_run(name, checks):
         shutil.rmtree(tmp, ignore_errors=True)
 
 
+def cmd_rerun_all(out_path):
+    """Regression test of the checks themselves: every seeded change whose patch still applies to /repo's HEAD must still be
+    caught by the check(s) recorded in its meta.json (suite/demo are not re-validated here). Writes a summary JSON."""
+    rows = []
+    for name in sorted(os.listdir(os.path.join(VERIF, "seeded"))):
+        d = os.path.join(VERIF, "seeded", name)
+        try:
+            meta = json.load(open(os.path.join(d, "meta.json")))
+        except Exception:
+            continue
+        want = meta.get("caught_by") or [name.split("-")[0]]
+        own = name.split("-")[0]
+        check = own if own in want else want[0]
+        tmp, copy = scratch()
+        try:
+            head = sh(["git", "-C", copy, "rev-parse", "--short", "HEAD"]).stdout.strip()
+            ap = sh(["git", "-C", copy, "apply", os.path.join(d, "patch.diff")])
+            if ap.returncode:
+                rows.append({"seed": name, "head": head, "status": "patch no longer applies (context changed by later repairs)"})
+                print("%-8s does not apply to %s" % (name, head), flush=True)
+                continue
+            t0 = time.time()
+            e = dict(os.environ, OLVERIF_REPO=copy, OLVERIF_OUT=os.path.join(tmp, "out"))
+            r = sh([os.path.join(VERIF, "bin", "check"), check, "--tier", "quick"], env=e, cwd=VERIF)
+            nviol = sum(1 for l in r.stdout.splitlines() if l.startswith("VIOLATION"))
+            rows.append({"seed": name, "head": head, "check": check, "exit": r.returncode, "violation_lines": nviol,
+                         "caught": r.returncode == 1 and nviol > 0, "wall_s": round(time.time() - t0, 1)})
+            print("%-8s %s exit=%d violations=%d" % (name, check, r.returncode, nviol), flush=True)
+        finally:
+            shutil.rmtree(tmp, ignore_errors=True)
+        json.dump(rows, open(out_path, "w"), indent=1)
+    app = [r for r in rows if "check" in r]
+    print("applied %d of %d; caught %d; missed %s" % (len(app), len(rows), sum(r["caught"] for r in app), [r["seed"] for r in app if not r["caught"]]))
+
+
 if __name__ == "__main__":
-    if sys.argv[1] == "import":
+    if sys.argv[1] == "rerun-all":
+        cmd_rerun_all(sys.argv[2] if len(sys.argv) > 2 else os.path.join(VERIF, "seeded", "RERUN.json"))
+    elif sys.argv[1] == "import":
         cmd_import(*sys.argv[2:6])
     elif sys.argv[1] == "run":
         cmd_run(sys.argv[2], sys.argv[3:])
